@@ -108,12 +108,39 @@ func (r *Reader) StrRaw() ([]byte, error) {
 	if err != nil {
 		return nil, errors.Wrap(err, "read length")
 	}
+	if n > readGrowChunk {
+		// Length is not trusted until the data is actually there.
+		r.b.Buf, err = r.readGrow(r.b.Buf[:0], n)
+		if err != nil {
+			return nil, errors.Wrap(err, "read str")
+		}
+		return r.b.Buf, nil
+	}
 	r.b.Ensure(n)
 	if _, err := io.ReadFull(r.data, r.b.Buf); err != nil {
 		return nil, errors.Wrap(err, "read str")
 	}
 
 	return r.b.Buf, nil
+}
+
+// readGrowChunk is allocation step for data with length received from wire.
+const readGrowChunk = 1024 * 1024
+
+// readGrow reads n bytes and appends them to buf, growing it in steps while the
+// data arrives: n is received from wire and can be arbitrarily large, so it
+// should not be allocated at once before any data is read.
+func (r *Reader) readGrow(buf []byte, n int) ([]byte, error) {
+	for n > 0 {
+		k := min(n, readGrowChunk)
+		off := len(buf)
+		buf = append(buf, make([]byte, k)...)
+		if _, err := io.ReadFull(r.data, buf[off:]); err != nil {
+			return buf[:off], err
+		}
+		n -= k
+	}
+	return buf, nil
 }
 
 // StrAppend decodes string and appends it to provided buf.
